@@ -86,6 +86,13 @@ def c19_witnesses(c):
                 _viol(res, f"C19|witness|{w}|store_ref_erases_the_borrow|miri_ub", detail)
             else:
                 res["inconclusive"].append(f"witness {w} compiles and runs clean under Miri (exit {t.get('miri_exit')})")
+        elif exp == "no_ub":
+            if t["compiles"] and not t.get("miri_ub"):
+                res["counters"]["no_ub_witnesses_clean"] = res["counters"].get("no_ub_witnesses_clean", 0) + 1
+            elif t["compiles"] and t.get("miri_ub"):
+                _viol(res, f"C19|witness|{w}|safe_program_reaches_undefined_behaviour", detail)
+            else:
+                res["inconclusive"].append(f"witness {w} (no_ub) does not build: {t}")
         elif exp == "clean":
             if t["compiles"] and t.get("miri_exit") == 0 and not t.get("miri_ub"):
                 res["counters"]["negative_controls_clean"] = res["counters"].get("negative_controls_clean", 0) + 1
